@@ -2,7 +2,8 @@
 (* Trace validation of real executions of Lexer.get_tokens against LexScan. *)
 (* A batch file (JSON array) holds many traces; each trace:                 *)
 (*   [id, text (code points), nrules, ev: <<[scans, pos, rule, end, tried,  *)
-(*     err, val (code points)]>>, exc]                                      *)
+(*     err, val (code points), cty (coarse type name)]>>, exc,              *)
+(*   region [lo, hi, ty] (C14: an opaque region of the text; lo = 0: none)] *)
 (* One event per token the generator yielded.  pos/end are 1-based, end     *)
 (* exclusive; rule = index (1-based) of the rule that matched, 0 for the    *)
 (* Error fallback; tried = number of rules consulted in that scan; scans =  *)
@@ -46,9 +47,15 @@ Step == /\ verdict = "ok" /\ l <= Len(T.ev)
 
 \* end of trace: scan reached the end of the text, no exception escaped
 Final == /\ verdict = "ok" /\ l = Len(T.ev) + 1
-         /\ verdict' = CASE T.exc # ""    -> "exception"
-                         [] pos # N + 1   -> "incomplete"
-                         [] OTHER         -> "accepted"
+         /\ verdict' = (CASE T.exc # ""    -> "exception"
+                          [] pos # N + 1   -> "incomplete"
+                          [] T.region.lo > 0 /\ ~\E i \in 1..Len(T.ev) :
+                                 T.ev[i].pos = T.region.lo /\ T.ev[i].end = T.region.hi + 1 /\ T.ev[i].cty = T.region.ty
+                                           -> "region-is-exactly-one-token-of-its-type"      \* C14
+                          [] T.region.lo > 0 /\ \E i \in 1..Len(T.ev) :
+                                 T.ev[i].cty = "Punctuation" /\ T.ev[i].pos > T.region.lo /\ T.ev[i].end <= T.region.hi
+                                           -> "punctuation-token-inside-region"              \* C05, lexical half
+                          [] OTHER         -> "accepted")
          /\ l' = l + 1 /\ UNCHANGED <<tid, pos>>
 
 Next == Step \/ Final
